@@ -1258,8 +1258,8 @@ std::ostream& expression_t::print(std::ostream& os, bool old) const
     case FRACTION: {
         // assignments associate to the right, everything else here to the left
         const bool right_assoc = (precedence == get_precedence(ASSIGN));
-        if (right_assoc)
-            embrace(os, old, get(0), precedence);
+        if (right_assoc)  // the grammar reads "c ? a : b = 1" as "c ? a : (b = 1)", so an inline-if needs parentheses too
+            embrace(os, old, get(0), get_precedence(INLINE_IF));
         else
             embrace_strict(os, old, get(0), precedence);
         switch (data->kind) {
